@@ -21,7 +21,9 @@ STAGES = {
 }
 
 PLACEMENTS = ["top", "block", "if_accept", "if_reject", "switch_case", "switch_default", "loop_body",
-              "continuing", "nested", "nested_loop_if", "if_false", "if_const_flag", "else_of_true"]
+              "continuing", "nested", "nested_loop_if", "if_false", "if_const_flag", "else_of_true",
+              # after constructs whose inner `break` only leaves THEM: the statement is reachable and part of the function
+              "after_break_switch", "after_break_loop", "for_update", "after_if_else_breaks", "switch_fallthrough_list"]
 CALL_FORMS = ["stmt", "let", "cond", "arg", "discard", "fwd", "ptr"]
 
 
@@ -52,6 +54,19 @@ def place(stmt, where, uid):
         return "if (DEBUG_FLAG) { %s }" % stmt
     if where == "else_of_true":
         return "if (DEBUG_LEVEL < 2) { } else { %s }" % stmt
+    if where == "after_break_switch":
+        return "switch (c_%d) { case 1: { break; } case 2: { break; } default: { break; } } %s" % (uid, stmt)
+    if where == "after_break_loop":
+        return "loop { break; } %s" % stmt
+    if where == "after_if_else_breaks":
+        return "loop { if (c_%d > 0) { break; } else { break; } } %s" % (uid, stmt)
+    if where == "switch_fallthrough_list":
+        return "switch (c_%d) { case 1, 2, 5: { %s } default: { break; } }" % (uid, stmt)
+    if where == "for_update":
+        st = stmt.strip()
+        if st.endswith("();") and st.count(";") == 1 and st.startswith("hv"):     # only a call statement can be an update clause
+            return "for (var i_%d = 0; i_%d < 2; %s) { }" % (uid, uid, st[:-1])
+        return "for (var i_%d = 0; i_%d < 2; i_%d++) { %s }" % (uid, uid, uid, stmt)
     if where == "nested_loop_if":
         return "loop { if (c_%d > 0) { break; } continuing { if (c_%d > 2) { switch (c_%d) { default: { %s } } } } }" % (uid, uid, uid, stmt)
     raise ValueError(where)
@@ -235,4 +250,21 @@ def many_functions_program(nh):
     p.entries = [("e0", "compute", [("call", tgt % 64, "stmt", "top"), ("call", tgt % 256 if tgt >= 256 else tgt % 64, "let", "top"),
                                     ("call", tgt, "stmt", "top")]),
                  ("e1", "fragment", [("acc", 1, 0, "top")])]
+    return p
+
+
+def deep_chain_program(depth, form="let", target=0):
+    """helper 0 touches the target, helper j calls helper j-1 (form let / cond: one call level each; stmt / fwd: several),
+    a compute entry calls the top of the chain; a vertex and a fragment entry touch other bindings only - the target is
+    used by the compute stage alone, however deep the chain is"""
+    p = Program()
+    p.globals = [("g0", "storage_rw", 0, 0), ("g1", "uniform", 0, 1), ("g2", "uniform", 1, 0)]
+    if target == "pc":
+        p.push_constant = ("pc", "vec4<f32>")
+    p.helpers.append([("acc", target, 0, "top")])
+    for j in range(1, depth):
+        p.helpers.append([("call", j - 1, form, "top")])
+    p.entries = [("deep", "compute", [("call", depth - 1, form, "top")]),
+                 ("vs_other", "vertex", [("acc", 1, 0, "top")]),
+                 ("fs_other", "fragment", [("acc", 2, 0, "top")])]
     return p
